@@ -27,6 +27,7 @@ func init() {
 			{"C17-R3", "deterministic marshalling", c17r3},
 			{"C17-R4", "results collected from worker goroutines are not ordered by arrival", c17r4},
 			{"C17-R5", "stored EnvoyFilter patch values are neither aliased into generated objects nor edited", c17r5},
+			{"C17-R6", "generation stores only into configuration objects it created", c17r6},
 		},
 	})
 }
@@ -1146,4 +1147,300 @@ func c17r5(c *Ctx) {
 	c.Check("readers of stored patch values found", token.NoPos, nSrc >= 10, fmt.Sprintf("%d loads of EnvoyFilterConfigPatchWrapper.Value outside the model package; fewer than confirmed by hand", nSrc))
 	c.Infof("loads of the stored patch value: %d, values followed: %d", nSrc, len(seen))
 	c.Floor(1)
+}
+
+// C17-R6: generation never stores into a configuration object it did not create. DestinationRules, Gateways, Sidecars,
+// mesh config ... reach the generators as pointers into the push context; they are shared by every generation of every
+// proxy. A store through such a pointer makes what the NEXT generation produces depend on which proxies were served
+// before (and races with concurrent generations). For every store (field store or map update) in the generation graph
+// whose target is a field of an API message (istio.io/api, istio.io/client-go, k8s.io/api, gateway-api) the object written to must be
+// FRESH: allocated here, the result of a copying constructor (DeepCopy / Clone / ShallowCopy* / proto.Clone / a module
+// function all of whose results are fresh), a phi of fresh values, a parameter that every caller feeds a fresh value,
+// or loaded from a cell / field whose every store in the function is fresh.
+var c17r6Exceptions = map[string]string{
+	"pilot/pkg/networking/core.buildGatewayListenerTLSContext|ServerTLSSettings.CipherSuites": "normalises the Gateway server's cipher list in place with FilterCipherSuites, which is idempotent (filter + dedupe of an already filtered list is the identity): the value generation reads is the same before and after the write, so no output depends on the history. Still a write to shared state (benign race).",
+}
+
+type freshAn struct {
+	p       *Prog
+	callers map[*ssa.Function][]ssa.CallInstruction
+	retMemo map[*ssa.Function]int // 0 unknown, 1 computing, 2 fresh, 3 not
+}
+
+var freshCtorName = func(name string) bool {
+	for _, pre := range []string{"DeepCopy", "Clone", "ShallowCopy", "shadowCopy", "shallowCopy", "CloneVT", "Copy"} {
+		if strings.HasPrefix(name, pre) {
+			return true
+		}
+	}
+	return false
+}
+
+func (a *freshAn) fresh(v ssa.Value, fn *ssa.Function, depth int, seen map[ssa.Value]bool) bool {
+	if v == nil || depth < 0 {
+		return false
+	}
+	if seen[v] {
+		return true // cycle through a phi: decided by the other edges
+	}
+	seen[v] = true
+	switch x := v.(type) {
+	case *ssa.Alloc:
+		return true
+	case *ssa.Const:
+		return true // nil
+	case *ssa.MakeMap, *ssa.MakeSlice:
+		return true
+	case *ssa.TypeAssert:
+		return a.fresh(x.X, fn, depth, seen)
+	case *ssa.ChangeType:
+		return a.fresh(x.X, fn, depth, seen)
+	case *ssa.Convert:
+		return a.fresh(x.X, fn, depth, seen)
+	case *ssa.Extract:
+		if call, ok := x.Tuple.(*ssa.Call); ok {
+			return a.callFresh(call, x.Index, depth)
+		}
+		return false
+	case *ssa.Call:
+		return a.callFresh(x, 0, depth)
+	case *ssa.Phi:
+		for _, e := range x.Edges {
+			if !a.fresh(e, fn, depth, seen) {
+				return false
+			}
+		}
+		return true
+	case *ssa.Parameter:
+		if depth == 0 {
+			return false
+		}
+		pi := paramIndex(fn, x)
+		n := 0
+		for _, cs := range a.callers[fn] {
+			par := cs.Parent()
+			if isWrapperFn(par) || isGenericOrigin(par) || strings.HasSuffix(a.p.Fset.Position(par.Pos()).Filename, "_test.go") {
+				continue
+			}
+			if _, isCall := cs.(*ssa.Call); !isCall {
+				return false
+			}
+			n++
+			if pi >= len(cs.Common().Args) || !a.fresh(cs.Common().Args[pi], par, depth-1, map[ssa.Value]bool{}) {
+				return false
+			}
+		}
+		return n > 0
+	case *ssa.UnOp:
+		if x.Op != token.MUL {
+			return false
+		}
+		return a.cellFresh(x.X, x, fn, depth, seen)
+	case *ssa.FieldAddr:
+		// address of an embedded struct: as fresh as its container
+		return a.fresh(x.X, fn, depth, seen)
+	}
+	return false
+}
+
+// cellFresh: every store in fn to the address (same cell / same field of the same base) stores a fresh value, and there
+// is at least one (or the containing object itself is fresh: its fields were made by the copying constructor).
+func (a *freshAn) cellFresh(addr ssa.Value, load *ssa.UnOp, fn *ssa.Function, depth int, seen map[ssa.Value]bool) bool {
+	isSt := func(ins ssa.Instruction) (*ssa.Store, bool) {
+		st, ok := ins.(*ssa.Store)
+		if ok && (st.Addr == addr || sameValue(st.Addr, addr)) {
+			return st, true
+		}
+		return nil, false
+	}
+	// reaching stores: walk backwards from the load; a path ends at the first store to the address it meets
+	var reaching []*ssa.Store
+	initialVisible := false
+	type pos struct {
+		b *ssa.BasicBlock
+		i int // scan instructions i-1 .. 0
+	}
+	visited := map[*ssa.BasicBlock]bool{}
+	st := []pos{{load.Block(), instrIndex(load)}}
+	for len(st) > 0 {
+		cur := st[len(st)-1]
+		st = st[:len(st)-1]
+		found := false
+		for k := cur.i - 1; k >= 0; k-- {
+			if s, ok := isSt(cur.b.Instrs[k]); ok {
+				reaching = append(reaching, s)
+				found = true
+				break
+			}
+		}
+		if found {
+			continue
+		}
+		if len(cur.b.Preds) == 0 {
+			initialVisible = true
+			continue
+		}
+		for _, pr := range cur.b.Preds {
+			if !visited[pr] {
+				visited[pr] = true
+				st = append(st, pos{pr, len(pr.Instrs)})
+			}
+		}
+	}
+	for _, s := range reaching {
+		if !a.fresh(s.Val, fn, depth, seen) {
+			return false
+		}
+	}
+	if !initialVisible && len(reaching) > 0 {
+		return true
+	}
+	// the value the cell / field had on entry is visible: as fresh as the object that holds it
+	if fa, isFA := addr.(*ssa.FieldAddr); isFA {
+		if _, isAlloc := fa.X.(*ssa.Alloc); isAlloc {
+			return len(reaching) > 0 // a local struct: zero value otherwise
+		}
+		return a.fresh(fa.X, fn, depth, seen)
+	}
+	if _, isAlloc := addr.(*ssa.Alloc); isAlloc {
+		return len(reaching) > 0
+	}
+	return false
+}
+
+func (a *freshAn) callFresh(call *ssa.Call, idx int, depth int) bool {
+	if bi, ok := call.Call.Value.(*ssa.Builtin); ok {
+		return bi.Name() == "append" && false
+	}
+	if call.Call.IsInvoke() {
+		return freshCtorName(call.Call.Method.Name())
+	}
+	sc := call.Call.StaticCallee()
+	if sc == nil {
+		return false
+	}
+	name := sc.Name()
+	if o := sc.Origin(); o != nil {
+		name = o.Name()
+	}
+	if freshCtorName(name) || strings.HasPrefix(name, "New") {
+		return true
+	}
+	if !isIstioFunc(sc) || len(sc.Blocks) == 0 || depth == 0 {
+		return false
+	}
+	switch a.retMemo[sc]*10 + idx {
+	}
+	key := sc
+	if st := a.retMemo[key]; st == 1 {
+		return true
+	}
+	a.retMemo[key] = 1
+	ok := true
+	for _, b := range sc.Blocks {
+		r, isR := b.Instrs[len(b.Instrs)-1].(*ssa.Return)
+		if !isR || idx >= len(r.Results) {
+			continue
+		}
+		if !a.fresh(retVal(r, idx), sc, depth-1, map[ssa.Value]bool{}) {
+			ok = false
+			break
+		}
+	}
+	a.retMemo[key] = 0
+	return ok
+}
+
+func isAPIType(t types.Type) (*types.Named, bool) {
+	if pt, ok := t.(*types.Pointer); ok {
+		t = pt.Elem()
+	}
+	n, ok := t.(*types.Named)
+	if !ok || n.Obj().Pkg() == nil {
+		return nil, false
+	}
+	pp := n.Obj().Pkg().Path()
+	for _, pre := range []string{"istio.io/api/", "istio.io/client-go/", "k8s.io/api/", "sigs.k8s.io/gateway-api"} {
+		if strings.HasPrefix(pp, pre) {
+			return n, true
+		}
+	}
+	return nil, false
+}
+
+func c17r6(c *Ctx) {
+	p := c.P
+	var entries []*ssa.Function
+	for _, fn := range p.AllFuncs {
+		if funcPkgPath(fn) == istioMod+"/"+pkgXds && (fn.Name() == "Generate" || fn.Name() == "GenerateDeltas") && fn.Signature.Recv() != nil && !isWrapperFn(fn) {
+			entries = append(entries, fn)
+		}
+	}
+	c.Check("generator entry points found", token.NoPos, len(entries) >= 15, fmt.Sprintf("%d Generate/GenerateDeltas methods in pilot/pkg/xds", len(entries)))
+	reach := p.CG().Reach(entries, nil)
+	a := &freshAn{p: p, callers: p.staticCallers(), retMemo: map[*ssa.Function]int{}}
+	nStores, nFresh := 0, 0
+	var fns []*ssa.Function
+	for fn := range reach {
+		fns = append(fns, fn)
+	}
+	sort.Slice(fns, func(i, j int) bool { return stableFnName(fns[i]) < stableFnName(fns[j]) })
+	for _, fn := range fns {
+		if strings.HasSuffix(p.Fset.Position(fn.Pos()).Filename, "_test.go") || len(fn.Blocks) == 0 || isWrapperFn(fn) || isGenericOrigin(fn) {
+			continue
+		}
+		if pp := funcPkgPath(fn); strings.Contains(pp, "/test") || strings.HasPrefix(pp, istioMod+"/pkg/config/") || strings.HasPrefix(pp, istioMod+"/pkg/kube/") {
+			continue
+		}
+		eachInstr(fn, func(ins ssa.Instruction) {
+			var target ssa.Value // address written through
+			var pos token.Pos
+			switch x := ins.(type) {
+			case *ssa.Store:
+				target, pos = x.Addr, x.Pos()
+			case *ssa.MapUpdate:
+				target, pos = x.Map, x.Pos()
+				// the map value itself: loaded from a field of an API object?
+				if u, ok := target.(*ssa.UnOp); ok && u.Op == token.MUL {
+					target = u.X
+				} else {
+					return
+				}
+			default:
+				return
+			}
+			fa, ok := target.(*ssa.FieldAddr)
+			if !ok {
+				return
+			}
+			n, isAPI := isAPIType(fa.X.Type())
+			if !isAPI {
+				return
+			}
+			nStores++
+			// the object written to: walk embedded structs up to the pointer
+			obj := fa.X
+			for {
+				if f2, ok := obj.(*ssa.FieldAddr); ok {
+					obj = f2.X
+					continue
+				}
+				break
+			}
+			if a.fresh(obj, fn, 3, map[ssa.Value]bool{}) {
+				nFresh++
+				return
+			}
+			key := stableFnName(fn) + "|" + n.Obj().Name() + "." + fieldVar(fa.X.Type(), fa.Field).Name()
+			if why, ok := c17r6Exceptions[key]; ok {
+				c.Infof("exception %s: %s", key, why)
+				return
+			}
+			c.Check("generation stores only into configuration objects it created: "+key, pos, false,
+				"this store writes a field of a "+n.Obj().Pkg().Name()+"."+n.Obj().Name()+" that was not created here (not allocated, copied or cloned on every path that reaches the store): the object is configuration held by the push context and shared by every generation, so what later generations produce - for this and for other proxies - depends on whether this path ran before, and concurrent generations race on it")
+		})
+	}
+	c.Check("stores into API messages in the generation graph found", token.NoPos, nStores >= 20 && nFresh >= 15, fmt.Sprintf("%d stores into API message fields in the generation graph, %d into fresh objects; fewer than confirmed by hand", nStores, nFresh))
+	c.Infof("stores into API message fields: %d, into fresh objects: %d", nStores, nFresh)
+	c.Floor(2)
 }
